@@ -1077,6 +1077,30 @@ where
 
         let (primed, _) = self.report_data(&mut rctx, &mut tx, exchange, true).await?;
 
+        // The fabric of the subscriber might have been removed while the priming report was
+        // under way (`RemoveFabric` on another exchange of this very session, a fail-safe
+        // rollback): the subscription is not in the table yet, so the purge of the fabric's
+        // subscriptions did not see it, and the session is only kept - marked as expired - to
+        // let answers under way leave. Do not commit a subscription of a fabric that is gone
+        // (its local index is handed out again to the next fabric, which would inherit it).
+        let primed = primed
+            && exchange.with_state(|state| {
+                let expired = state
+                    .sessions
+                    .get(exchange.id().session_id())
+                    .map(|sess| sess.is_expired())
+                    .unwrap_or(true);
+
+                Ok::<_, Error>(!expired && state.fabrics.get(fab_idx).is_some())
+            })?;
+
+        if !primed {
+            warn!(
+                "Subscription of (fabric {}, node {:x}) not established: priming incomplete, or the fabric went away meanwhile",
+                fab_idx, peer_node_id
+            );
+        }
+
         if primed {
             exchange
                 .send_with(|_, wb| {
